@@ -286,3 +286,10 @@ func ZZ_AUX_step() {
 
 var _ = loglimiter.New
 var _ = time.Minute
+
+// replay entries of this file (registered here so that the file can be left out
+// on its own when it does not compile against the tree under check)
+func init() {
+	zzEntries["ZZ_AUX_bmc"] = ZZ_AUX_bmc
+	zzEntries["ZZ_AUX_step"] = ZZ_AUX_step
+}
